@@ -50,6 +50,7 @@ func run(p *pool, cfg *lib.Config, res *lib.Result, rng *lib.Rng, only map[strin
 	ck.pairs()
 	ck.ownEntriesOfPool()
 	ck.derivedOfPool()
+	caches := ck.cacheMatrix(cfg)
 	cfa := &lib.CasesFile{Imports: imports, Typ: "from_array_case",
 		Obligations: map[string]string{"from_array_model": "c07_from_array_mismatches cases"}}
 	ck.fromArrays(fa, cfa)
@@ -87,7 +88,7 @@ func run(p *pool, cfg *lib.Config, res *lib.Result, rng *lib.Rng, only map[strin
 		terms[k] = p.items[i].d.gallina()
 	}
 	prelude := "Definition pool : list value :=\n " + lib.GList(terms, "value") + ".\n"
-	shards := 4
+	shards := 6
 	if len(mi) < 200 {
 		shards = 1
 	}
@@ -147,6 +148,7 @@ func run(p *pool, cfg *lib.Config, res *lib.Result, rng *lib.Rng, only map[strin
 	}
 	res.CorrFiles = append(res.CorrFiles, cu.WriteTo(cfg.Out, "cases_unique"))
 	res.CorrFiles = append(res.CorrFiles, cfa.WriteTo(cfg.Out, "cases_from_array"))
+	res.CorrFiles = append(res.CorrFiles, caches)
 }
 
 func equalTexts(p *pool, ck *checker, i int) []string {
